@@ -59,6 +59,11 @@ func checkC04(c *Ctx) {
 	c.R.Trusted = append(c.R.Trusted, "encoding/binary table: Uint16/PutUint16 need len >= 2; Uvarint returns -10 <= n <= min(10, len)", "+, - on int do not overflow")
 	// the flag bits the decoders validate (T1)
 	c.flagBitTables()
+	// what the helpers of the decoders refuse beyond what the specification lets them (B13, T13)
+	c.lpHelpersAcceptSpecLengths()
+	c.topicNamePredicate()
+	// what a received packet is decoded into: the message of its own type, fresh for every packet (T1)
+	c.typeTables()
 	entries := c.decodeEntries()
 	c.R.Count("Decode entry points", len(entries))
 	c.R.Floor("Decode entry points (8 declared Decode bodies)", len(entries), 8)
